@@ -66,7 +66,8 @@ class UartSpec(Spec):
         else:
             vals = word_alphabet(self.bw)
         self._acts = [(0, 0)] + [(1, v) for v in vals] + [(0, vals[-1])]
-        self.time_budget = 35 if tier == "quick" else 800
+        self.time_budget = 150 if tier == "quick" else 850      # safety net only; sized to finish in seconds
+        self.max_states = 400_000 if tier == "quick" else 3_000_000
 
     def build(self):
         from luna.gateware.interface.uart import UARTTransmitter, UARTMultibyteTransmitter
